@@ -106,7 +106,15 @@ def expr_text(e, top=True):
     if op == "!":
         return "!" + expr_text(e[1], False)
     if op in ("&&", "||"):
-        s = "%s %s %s" % (expr_text(e[1], False), op, expr_text(e[2], False))
+        # minimal parentheses: && binds tighter than ||; a same-operator chain on the left needs none
+        def side(x, left):
+            if x[0] in ("&&", "||"):
+                if (x[0] == "&&" and op == "||") or (x[0] == op and left):
+                    return expr_text(x, True)
+                return "(" + expr_text(x, True) + ")"
+            return expr_text(x, False)
+
+        s = "%s %s %s" % (side(e[1], True), op, side(e[2], False))
         return s if top else "(" + s + ")"
     s = "%s %s %s" % (atom_text(e[1]), op, atom_text(e[2]))
     return s if top else "(" + s + ")"
@@ -311,7 +319,13 @@ class Gen:
         a, b = self.atom_cond(), self.atom_cond()
         if a == Y or b == Y:
             return a if b == Y else b
-        return [r.choice(["&&", "||"]), a, b]
+        e = [r.choice(["&&", "||"]), a, b]
+        if r.random() < 0.3:  # three operands, mixed operators, both nestings
+            c = self.atom_cond()
+            if c != Y:
+                op2 = r.choice(["&&", "||"])
+                e = [op2, e, c] if r.random() < 0.6 else [op2, c, e]
+        return e
 
     def later_targets(self):
         return None
@@ -514,3 +528,157 @@ def generate(seed, n_programs, n_opts=6):
         prog = g.program()
         out.append({"prog": prog, "ord": g.order})
     return out
+
+
+# ------------------------------------------------------------------ lexical variants (C04)
+def _config_lines(e, style, rng):
+    """Property lines of a config entry (without indentation); the type line comes first."""
+    first = []
+    rest = []
+    if e["prompt"] and not style.get("separate_prompt"):
+        first.append('%s "%s prompt"%s' % (e["type"], e["name"], cond_suffix(e["prompt"][0])))
+    else:
+        first.append(e["type"])
+        if e["prompt"]:
+            rest.append('prompt "%s prompt"%s' % (e["name"], cond_suffix(e["prompt"][0])))
+    if not is_y(e["dep"]):
+        rest.append("depends on %s" % expr_text(e["dep"]))
+    rl = []
+    for r in e["ranges"]:
+        rl.append("range %s %s%s" % (atom_text(r["lo"]), atom_text(r["hi"]), cond_suffix(r["c"])))
+    rest.append(rl)  # the first active range wins: ranges keep their relative order
+    dl = []
+    for d in e["defaults"]:
+        if e["type"] == "bool":
+            v = expr_text(d["v"])
+        elif e["type"] == "string":
+            v = atom_text(d["v"], as_string=True)
+        else:
+            v = atom_text(d["v"])
+        dl.append("default %s%s" % (v, cond_suffix(d["c"])))
+    rest.append(dl)  # defaults keep their relative order
+    rest.append(["select %s%s" % (s["t"], cond_suffix(s["c"])) for s in e["selects"]])  # same-kind properties keep
+    rest.append(["imply %s%s" % (s["t"], cond_suffix(s["c"])) for s in e["implies"]])  # their relative order
+    sl = []
+    for s in e["sets"]:
+        sl.append("set %s=%s%s" % (s["t"], atom_text(s["v"], as_string=s.get("str", False)), cond_suffix(s["c"])))
+    for s in e["wsets"]:
+        sl.append("set default %s=%s%s" % (s["t"], atom_text(s["v"], as_string=s.get("str", False)), cond_suffix(s["c"])))
+    rest.append(sl)
+    if style.get("shuffle"):
+        rng.shuffle(rest)
+    out = list(first)
+    for x in rest:
+        out += x if isinstance(x, list) else [x]
+    return out
+
+
+def _emit(out, pad, line, style, rng):
+    if style.get("continuation") and (" && " in line or " || " in line) and rng.random() < 0.7:
+        k = line.find(" && ") if " && " in line else line.find(" || ")
+        out.append(pad + line[: k + 3] + " \\")
+        out.append(pad + "        " + line[k + 4 :])
+    else:
+        out.append(pad + line)
+    if style.get("comments") and rng.random() < 0.3:
+        out.append(rng.choice(["", pad + "# a comment", "#another", "    "]))
+
+
+def _render_styled(entries, ind, out, style, rng):
+    unit = "\t" if style.get("tabs") else "    "
+    pad = unit * ind
+    for e in entries:
+        k = e["k"]
+        if style.get("comments") and rng.random() < 0.3:
+            out.append(pad + "# entry comment")
+        if k == "config":
+            out.append("%s%s %s" % (pad, "menuconfig" if e.get("menuconfig") else "config", e["name"]))
+            for ln in _config_lines(e, style, rng):
+                _emit(out, pad + unit, ln, style, rng)
+            if style.get("help"):
+                out.append(pad + unit + "help")
+                out.append(pad + unit + unit + "Help for %s." % e["name"])
+                out.append("")
+                out.append(pad + unit + unit + unit + "deeper indented line")
+                out.append(pad + unit + unit + "last help line")
+            out.append("")
+        elif k == "menu":
+            out.append('%smenu "%s"' % (pad, e.get("title", "menu")))
+            props = []
+            if not is_y(e["dep"]):
+                props.append("depends on %s" % expr_text(e["dep"]))
+            if not is_y(e["visif"]):
+                props.append("visible if %s" % expr_text(e["visif"]))
+            if style.get("shuffle"):
+                rng.shuffle(props)
+            for ln in props:
+                _emit(out, pad + unit, ln, style, rng)
+            out.append("")
+            _render_styled(e["children"], ind + 1, out, style, rng)
+            out.append("%sendmenu" % pad)
+            out.append("")
+        elif k == "if":
+            out.append("%sif %s" % (pad, expr_text(e["c"])))
+            out.append("")
+            _render_styled(e["children"], ind + 1, out, style, rng)
+            out.append("%sendif" % pad)
+            out.append("")
+        elif k == "choice":
+            name = e["id"] if not e["id"].startswith("<") else ""
+            out.append(("%schoice %s" % (pad, name)).rstrip())
+            props = []
+            if e["prompt"]:
+                props.append('prompt "%s prompt"%s' % (e.get("title", "choice"), cond_suffix(e["prompt"][0])))
+            if not is_y(e["dep"]):
+                props.append("depends on %s" % expr_text(e["dep"]))
+            dl = ["default %s%s" % (d["m"], cond_suffix(d["c"])) for d in e["defaults"]]
+            props.append(dl)
+            if style.get("shuffle"):
+                rng.shuffle(props)
+            for x in props:
+                for ln in x if isinstance(x, list) else [x]:
+                    _emit(out, pad + unit, ln, style, rng)
+            if style.get("help"):
+                out.append(pad + unit + "help")
+                out.append(pad + unit + unit + "Choice help.")
+            out.append("")
+            _render_styled(e["children"], ind + 1, out, style, rng)
+            out.append("%sendchoice" % pad)
+            out.append("")
+        elif k == "comment":
+            out.append('%scomment "%s"' % (pad, e.get("title", "comment")))
+            if not is_y(e["dep"]):
+                _emit(out, pad + unit, "depends on %s" % expr_text(e["dep"]), style, rng)
+            out.append("")
+
+
+STYLES = {
+    "canonical": {},
+    "separate-prompt+shuffle": {"separate_prompt": True, "shuffle": True},
+    "comments": {"comments": True},
+    "continuation": {"continuation": True},
+    "help": {"help": True},
+    "tabs": {"tabs": True},
+    "rsource": {"rsource": True},
+    "everything": {"separate_prompt": True, "shuffle": True, "comments": True, "continuation": True, "help": True, "rsource": True},
+}
+
+
+def render_styled(prog, style_name, rng, title="verif"):
+    """(main text, {extra file name: text}) of one lexical variant of the program."""
+    style = STYLES[style_name]
+    extra = {}
+    main_entries = prog
+    out = ['mainmenu "%s"' % title, ""]
+    if style.get("rsource") and len(prog) >= 2:
+        k = max(1, len(prog) // 2)
+        main_entries, moved = prog[:k], prog[k:]
+        sub = []
+        _render_styled(moved, 0, sub, style, rng)
+        extra["Kconfig.sub"] = "\n".join(sub) + "\n"
+        _render_styled(main_entries, 0, out, style, rng)
+        out.append('rsource "Kconfig.sub"')
+        out.append("")
+    else:
+        _render_styled(main_entries, 0, out, style, rng)
+    return "\n".join(out) + "\n", extra
